@@ -246,6 +246,11 @@ type c32Facts struct {
 	burned                         *big.Int
 	burnAfterDestruct              bool // a destructed account lost balance it received otherwise than by its own destruct-to-self
 	txShapes                       []string
+	// Effective SELFDESTRUCTs of accounts created by an EARLIER transaction of the same
+	// block: all / to itself while holding ether / accounts paid after such a SELFDESTRUCT
+	// within the same transaction.
+	sdLate, sdLateSelfValue, sdLatePaidAfter int
+	wdClasses                                []string
 }
 
 func c32SortedAddrs(m map[common.Address]*big.Int) []common.Address {
@@ -299,6 +304,7 @@ func c32CheckBlock(w *worldgen.World, rec *c32Block, pre, post map[common.Hash]*
 
 	txIndex := 0
 	txs := block.Transactions()
+	createdEarlier := map[common.Address]bool{} // created by an earlier transaction of this block
 	for si, sc := range rec.scopes {
 		if len(sc.stack) != 0 {
 			return fmt.Sprintf("VERIF-HARNESS-BUG: scope %d (%s) ended with %d open frames", si, sc.kind, len(sc.stack))
@@ -378,6 +384,7 @@ func c32CheckBlock(w *worldgen.World, rec *c32Block, pre, post map[common.Hash]*
 		created := map[common.Address]bool{}
 		var destructed []common.Address
 		isDestructed := map[common.Address]bool{}
+		sdLateSeen := map[common.Address]bool{}
 		nsd, ncv := 0, 0
 		for fi, f := range sc.frames {
 			if !f.closed {
@@ -389,6 +396,9 @@ func c32CheckBlock(w *worldgen.World, rec *c32Block, pre, post map[common.Hash]*
 			case vm.CALL:
 				if !void && f.value.Sign() > 0 {
 					led.move(f.from, f.to, f.value)
+					if sdLateSeen[f.to] {
+						facts.sdLatePaidAfter++
+					}
 				}
 			case vm.CREATE, vm.CREATE2:
 				if f.value.Sign() > 0 {
@@ -412,6 +422,13 @@ func c32CheckBlock(w *worldgen.World, rec *c32Block, pre, post map[common.Hash]*
 				}
 				facts.sdEffective++
 				nsd++
+				if createdEarlier[f.from] && !created[f.from] {
+					facts.sdLate++
+					sdLateSeen[f.from] = true
+					if f.from == f.to && f.value.Sign() > 0 {
+						facts.sdLateSelfValue++
+					}
+				}
 				if f.from != f.to && f.value.Sign() > 0 {
 					led.move(f.from, f.to, f.value)
 				}
@@ -431,6 +448,9 @@ func c32CheckBlock(w *worldgen.World, rec *c32Block, pre, post map[common.Hash]*
 					led.add(a, new(big.Int).Neg(left))
 				}
 			}
+		}
+		for a := range created { // set union: iteration order is irrelevant
+			createdEarlier[a] = true
 		}
 		if sc.kind == "tx" {
 			facts.txShapes = append(facts.txShapes, fmt.Sprintf("%d/%d/sd%d/cv%d", sc.tx.Type(), sc.receipt.Status, nsd, ncv))
@@ -495,6 +515,7 @@ func c32CheckBlock(w *worldgen.World, rec *c32Block, pre, post map[common.Hash]*
 	// Consensus-level issuance.
 	for _, wd := range block.Withdrawals() {
 		amt := new(big.Int).Mul(new(big.Int).SetUint64(wd.Amount), c32Gwei)
+		facts.wdClasses = append(facts.wdClasses, worldgen.BigWithdrawalClass(wd.Amount))
 		led.add(wd.Address, amt)
 		issued.Add(issued, amt)
 	}
@@ -579,7 +600,10 @@ func c32CheckBlock(w *worldgen.World, rec *c32Block, pre, post map[common.Hash]*
 // ---- property ---------------------------------------------------------------------------
 
 func c32Options() worldgen.Options {
-	return worldgen.Options{}
+	// Both options are drawn after everything else: the cases of a given seed keep the
+	// world they had before and gain hostile withdrawals / a create-then-destruct-later
+	// arrangement on top.
+	return worldgen.Options{BigWithdrawals: true, LateDestruct: true}
 }
 
 func TestVerifC32Conservation(t *testing.T) {
@@ -672,6 +696,18 @@ func c32Classes(c *vs.Case, w *worldgen.World, b *worldgen.Built, i int, f *c32F
 	flag(f.burned.Sign() > 0, "burn>0:"+w.Variant.Name)
 	flag(f.sdEffective > 0, "selfdestruct:"+w.Variant.Name)
 	flag(len(blk.Withdrawals()) > 0, "block:withdrawals")
+	for _, wc := range f.wdClasses {
+		c.Class("withdrawal:" + wc)
+	}
+	flag(f.sdLate > 0, "block:selfdestruct-of-contract-created-by-earlier-tx")
+	flag(f.sdLate > 0, "late-selfdestruct:"+w.Variant.Name)
+	flag(f.sdLateSelfValue > 0, "block:late-selfdestruct-to-self-with-balance")
+	flag(f.sdLatePaidAfter > 0, "block:paid-after-late-selfdestruct")
+	if l := w.Late; l != nil && l.Block == i {
+		c.Class("late-plan:" + l.Shape())
+		_, ok := b.Created[l.Create]
+		flag(l.Via == "tx-create" && !ok, "late-plan:create-skipped")
+	}
 	flag(len(blk.Uncles()) > 0, "block:uncle")
 	flag(blk.BaseFee() != nil && blk.BaseFee().Sign() == 0, "block:basefee-0")
 	c.Class("coinbase:" + w.Blocks[i].CoinbaseClass)
